@@ -22,7 +22,7 @@ META = {
         "late listeners only provide plain names (convention and inline name references), as documented",
     ],
     "must_observe": ["events_executed", "listeners_added_late", "multi_provider_guard_evals", "other_instance_steps", "reattachments"],
-    "shard_timeout": {"quick": 900, "thorough": 3400},
+    "shard_timeout": {"quick": 300, "thorough": 3400},
 }
 
 PROFILE = {"n_states": (2, 5), "n_events": (1, 3), "extra_transitions": (1, 5), "p_multi_event": 0.2,
@@ -48,6 +48,7 @@ def make_case(rng, i):
     prof["async_mode"] = rng.choice(["none", "none", "none", "all", "half"])
     spec = gen.gen_spec(rng, prof)
     listeners = [p for p in spec["providers"] if p not in ("sm", "model")]
+    spec["eq_listeners"] = rng.random() < 0.25
     # multi-provider guards / validators
     others = [p for p in spec["providers"] if p != "sm"]
     unless_names = {g["name"] for t in spec["transitions"] for g in t["guards"] if g["kind"] == "unless"}
